@@ -83,13 +83,20 @@ DIRECTED_SRC = (
     "from dataclasses import dataclass, field\nfrom typing import *\n"
     "@dataclass\nclass Fz:\n    a: int = 0\n    b: str = ''\n    c: bool = False\n    d: Optional[int] = None\n"
     "    e: Literal[0] = 0\n    f: Literal[''] = ''\n    g: Literal[False] = False\n    h: Literal[None] = None\n"
-    "    i: Any = 0\n    j: float = 0.0\n    k: Tuple[()] = ()\n")
+    "    i: Any = 0\n    j: float = 0.0\n    k: Tuple[()] = ()\n"
+    # (/repo fcaa28c) strategies registered under the origin class apply to every List[..] / Dict[..] position, and only to those
+    "    l: List[int] = field(default_factory=list)\n    m: Dict[str, int] = field(default_factory=dict)\n"
+    "    n: Optional[List[str]] = None\n    o: Tuple[int, ...] = ()\n"
+    "    class Config:\n        serialization_strategy = {list: {'serialize': _c20_ser_str}, dict: {'serialize': _c20_ser_any}}\n"
+).replace("@dataclass\nclass Fz", "def _c20_ser_str(v) -> str:\n    return str(v)\ndef _c20_ser_any(v) -> Any:\n    return v\n@dataclass\nclass Fz")
 DIRECTED_EXPECT = {
     "a": {"type": "integer", "default": 0}, "b": {"type": "string", "default": ""}, "c": {"type": "boolean", "default": False},
     "d": {"anyOf": [{"type": "integer"}, {"type": "null"}], "default": None},
     "e": {"const": 0, "default": 0}, "f": {"const": "", "default": ""}, "g": {"const": False, "default": False},
     "h": {"const": None, "default": None}, "i": {"default": 0}, "j": {"type": "number", "default": 0.0},
-    "k": {"type": "array", "default": [], "maxItems": 0}}
+    "k": {"type": "array", "default": [], "maxItems": 0},
+    "l": {"type": "string"}, "m": {}, "n": {"anyOf": [{"type": "string"}, {"type": "null"}], "default": None},
+    "o": {"type": "array", "default": [], "items": {"type": "integer"}}}
 DIRECTED_DOCS = [{"const": 0}, {"const": ""}, {"const": False}, {"const": None}, {"const": None, "default": 0},
                  {"default": ""}, {"default": False}, {"default": None}, {"enum": [0, "", False, None], "default": []},
                  {"type": "object", "properties": {"$ref": {"const": 0}}, "additionalProperties": False},
